@@ -6,6 +6,7 @@ package main
 
 import (
 	"encoding/json"
+	"expvar"
 	"fmt"
 	"math/rand"
 	"reflect"
@@ -80,6 +81,11 @@ func (g *managerInst) Build(s *verifsched.Sched) []func() {
 				r = idOf(g.m.GetCircuit(fmt.Sprint(t.Name)))
 			case "all":
 				r = int64(len(g.m.AllCircuits()))
+			case "var":
+				// the expvar view: evaluated under the manager's read lock; one entry per circuit
+				if mm, ok := g.m.Var().(expvar.Func).Value().(map[string]interface{}); ok {
+					r = int64(len(mm))
+				}
 			}
 			g.results[i] = r
 			verifsched.Mark("Mdone", r)
@@ -96,8 +102,8 @@ func (g *managerInst) Init() (string, string) {
 			ops = append(ops, fmt.Sprintf("MCreate %d%%nat []", t.Name))
 		case "get":
 			ops = append(ops, fmt.Sprintf("MGet %d%%nat", t.Name))
-		case "all":
-			ops = append(ops, "MAll")
+		case "all", "var":
+			ops = append(ops, "MAll") // Var is, like AllCircuits, one read-locked pass over the map
 		}
 	}
 	// the default constructor only stamps the creation order: irrelevant to the modelled settings
@@ -138,6 +144,7 @@ func (managerScenario) Corpus() []Instance {
 	return []Instance{
 		&managerInst{p: managerParams{Threads: []mThread{{"create", 1}, {"create", 1}}}},
 		&managerInst{p: managerParams{Threads: []mThread{{"create", 1}, {"get", 1}, {"create", 1}, {"all", 0}}}},
+		&managerInst{p: managerParams{Threads: []mThread{{"create", 1}, {"var", 0}, {"create", 2}}}},
 	}
 }
 
@@ -145,7 +152,7 @@ func (managerScenario) Draw(r *rand.Rand, i int, tier string) Instance {
 	var p managerParams
 	n := 2 + r.Intn(3)
 	for k := 0; k < n; k++ {
-		op := []string{"create", "create", "create", "get", "all"}[r.Intn(5)]
+		op := []string{"create", "create", "create", "get", "all", "var"}[r.Intn(6)]
 		p.Threads = append(p.Threads, mThread{op, r.Intn(2)})
 	}
 	return &managerInst{p: p}
